@@ -85,6 +85,42 @@ Proof.
 Qed.
 
 (* ------------------------------------------------------------------ *)
+(** * The footprint of an in-place operation on the instance at cell l, relative to the heap h0
+      (of size b) it started from: no other old cell is written, the cells allocated since refer
+      only to cells allocated since, cell l is still an instance of its class and refers only to
+      what it referred to in h0 or to cells allocated since.  Reflexive and transitive. *)
+Definition ishape (b : nat) (h0 : list obj) (l : loc) (s' : state) : Prop :=
+  b <= length (heap s') /\
+  (forall x, x < b -> x <> l -> nth_error (heap s') x = nth_error h0 x) /\
+  (forall x o y, b <= x -> nth_error (heap s') x = Some o -> In y (refs_of o) -> b <= y) /\
+  (forall o' y, nth_error (heap s') l = Some o' -> In y (refs_of o') ->
+                b <= y \/ exists o, nth_error h0 l = Some o /\ In y (refs_of o)) /\
+  (forall c d, nth_error h0 l = Some (OInst c d) -> exists d', nth_error (heap s') l = Some (OInst c d')).
+
+Lemma ishape_refl l s : ishape (length (heap s)) (heap s) l s.
+Proof.
+  split; [lia|]. split; [auto|]. split.
+  - intros x o y Hx Hn. apply nth_error_None in Hx. congruence.
+  - split; [intros o' y Hn Hin; right; eauto|]. intros c d H. eauto.
+Qed.
+
+Lemma ishape_same_heap b h0 l s s' : heap s' = heap s -> ishape b h0 l s -> ishape b h0 l s'.
+Proof. intros E H. unfold ishape in *. rewrite E. exact H. Qed.
+
+Lemma ishape_trans b h0 l s1 s2 :
+  l < b -> ishape b h0 l s1 -> ishape (length (heap s1)) (heap s1) l s2 -> ishape b h0 l s2.
+Proof.
+  intros Hl (L1 & S1 & C1 & U1 & K1) (L2 & S2 & C2 & U2 & K2).
+  split; [lia|]. split; [|split; [|split]].
+  - intros x Hx Hne. rewrite S2 by (auto; lia). apply S1; auto.
+  - intros x o y Hx Hn Hin. destruct (Nat.lt_ge_cases x (length (heap s1))) as [Hlt|Hge].
+    + rewrite S2 in Hn by (auto; lia). eapply C1; eauto.
+    + specialize (C2 x o y Hge Hn Hin). lia.
+  - intros o' y Hn Hin. destruct (U2 o' y Hn Hin) as [H|[o1 [H1 H2]]]; [left; lia|]. eapply U1; eauto.
+  - intros c d H. destruct (K1 c d H) as [d1 H1]. eapply K2; eauto.
+Qed.
+
+(* ------------------------------------------------------------------ *)
 (** * The operations *)
 Section Peers.
   Variable ct : ctable.
@@ -112,16 +148,7 @@ Section Peers.
   Lemma NoA_table b : table_ok ct b NoA.
   Proof. apply scalar_table_ok. exact Hscalar. Qed.
 
-  (* ---------- in-place writes: only allocation, then at most one write to the receiver ---------- *)
-  (* relative to a base heap h0 of size b: the final state is a state s1 reached by allocation
-     only, or s1 with cell l rewritten to a dictionary whose references are old references of
-     that dictionary or cells allocated by the call *)
-  Definition shape_from (b : nat) (h0 : list obj) (l : loc) (s' : state) : Prop :=
-    exists s1, sinv b NoA NoW h0 s1 /\
-      (s' = s1 \/ exists c d d', nth_error (heap s1) l = Some (OInst c d) /\ s' = upd s1 l (OInst c d') /\
-                    forall y, In y (vrefs (map snd d')) -> b <= y \/ In y (vrefs (map snd d))).
-  Definition inplace_shape (l : loc) (s s' : state) : Prop := shape_from (length (heap s)) (heap s) l s'.
-
+  (* ---------- in-place writes: allocation phases and writes to the receiver ---------- *)
   Lemma vrefs_assoc_del a d y : In y (vrefs (map snd (assoc_del a d))) -> In y (vrefs (map snd d)).
   Proof.
     unfold vrefs, assoc_del. intro H. apply in_flat_map in H. destruct H as [x [Hx Hy]].
@@ -129,143 +156,283 @@ Section Peers.
     apply in_flat_map. exists x. split; auto. apply in_map_iff. exists p. auto.
   Qed.
 
+  Lemma old_cell b h0 s l o : sinv b NoA NoW h0 s -> l < b -> nth_error h0 l = Some o -> nth_error (heap s) l = Some o.
+  Proof. intros (_ & Old & _) Hl Hn. destruct (Old l Hl) as [[]|E]. congruence. Qed.
+
+  (* a state reached by allocation only *)
+  Lemma sinv_ishape b h0 l s1 : sinv b NoA NoW h0 s1 -> l < b -> ishape b h0 l s1.
+  Proof.
+    intros (L & Old & Cl) Hl. split; [exact L|]. split; [|split; [|split]].
+    - intros x Hx _. destruct (Old x Hx) as [[]|E]. exact E.
+    - intros x o y Hx Hn Hin. destruct (obj_ok_refs b NoA o y (Cl x o Hx Hn) Hin) as [H|[]]. exact H.
+    - intros o' y Hn Hin. right. exists o'. destruct (Old l Hl) as [[]|E]. rewrite <- E. auto.
+    - intros c d H. exists d. destruct (Old l Hl) as [[]|E]. congruence.
+  Qed.
+  (* ... followed by one write of a dictionary with old or new references *)
+  Lemma upd_ishape b h0 l s1 c d d' :
+    sinv b NoA NoW h0 s1 -> l < b -> nth_error h0 l = Some (OInst c d) ->
+    (forall y, In y (vrefs (map snd d')) -> b <= y \/ In y (vrefs (map snd d))) ->
+    ishape b h0 l (upd s1 l (OInst c d')).
+  Proof.
+    intros I1 Hl Hn Hrefs. assert (Hl1 := old_cell b h0 s1 l _ I1 Hl Hn). destruct I1 as (L & Old & Cl).
+    assert (Hlt : l < length (heap s1)) by (apply nth_error_Some; congruence).
+    unfold upd. split; [simpl; rewrite set_nth_length; exact L|]. split; [|split; [|split]]; simpl.
+    - intros x Hx Hne. rewrite set_nth_other by auto. destruct (Old x Hx) as [[]|E]. exact E.
+    - intros x o y Hx Hnx Hin. rewrite set_nth_other in Hnx by lia.
+      destruct (obj_ok_refs b NoA o y (Cl x o Hx Hnx) Hin) as [H|[]]. exact H.
+    - intros o' y Hn' Hin. rewrite nth_error_set_nth_same in Hn' by exact Hlt. inversion Hn'; subst o'.
+      simpl in Hin. destruct (Hrefs y Hin) as [H|H]; [left; exact H|right]. exists (OInst c d). auto.
+    - intros c0 d0 H0. rewrite nth_error_set_nth_same by exact Hlt. rewrite Hn in H0. inversion H0; subst. eauto.
+  Qed.
+
+  (* mutate_attr(inplace) up to the invalidation: nothing happened, or the single write *)
+  Lemma mutate_attr_inplace_total rec l a v tc force s c d k r s' :
+    nth_error (heap s) l = Some (OInst c d) -> lookup_cls ct c = Some k ->
+    is_sentinel v = false ->
+    mutate_attr ct rec l a v true tc force true s = (r, s') ->
+    s' = s \/ s' = upd s l (OInst c (assoc_set a v d)).
+  Proof.
+    intros Hl Hc Hv. unfold mutate_attr. rewrite Hv.
+    rewrite (bind_ok _ _ _ _ _ (read_inst_at l s c d Hl)). cbn [fst snd].
+    rewrite (bind_ok _ _ _ _ _ (cls_of_at ct s c k Hc)).
+    destruct (negb (force || initializing d) && true && c_frozen k).
+    { rewrite bind_err with (e := FrozenErr) (s1 := s) by reflexivity. intro H; inversion H; auto. }
+    rewrite bind_ret_l'.
+    destruct (type_check_cases ct k a v tc s) as [E|E]; cbv zeta in E.
+    2:{ rewrite (bind_err _ _ _ _ _ E). intro H; inversion H; auto. }
+    rewrite (bind_ok _ _ _ _ _ E). cbv zeta. rewrite (no_dnc c k Hc). cbn [orb negb andb]. rewrite !bind_ret_l'.
+    unfold bind at 1. rewrite (thawed_nothaw_eq ct l _ s c d k Hl Hc).
+    rewrite (bind_ok _ _ _ _ _ (raw_setattr_run l a v s c d Hl)). cbn [ret]. intro H; inversion H; auto.
+  Qed.
+
   Section Shapes.
     Variable rec : call -> M val.
+    Variable l : loc.
+    (* what invalidation does to the receiver, from any state *)
+    Hypothesis Hinv : forall a s r s', l < length (heap s) ->
+      invalidate_attrs ct rec l a s = (r, s') -> ishape (length (heap s)) (heap s) l s'.
     Variables (b : nat) (h0 : list obj).
-    Hypothesis E1 : forall k, call_ok ct b NoA NoW k -> sep b NoA NoW h0 (rec k) (post b NoA k).
+    Hypothesis Hlb : l < b.
 
-    Lemma old_cell s l o : sinv b NoA NoW h0 s -> l < b -> nth_error h0 l = Some o -> nth_error (heap s) l = Some o.
-    Proof. intros (_ & Old & _) Hl Hn. destruct (Old l Hl) as [[]|E]. congruence. Qed.
-
-    (* value <- M1 (allocation only) ;; mutate_attr(l, a, value, inplace) *)
-    Lemma prep_write_shape l a c d k (M1 : M val) tc force skip s r s' :
-      sinv b NoA NoW h0 s -> l < b -> nth_error h0 l = Some (OInst c d) -> lookup_cls ct c = Some k ->
-      no_dependants k a -> sep b NoA NoW h0 M1 (okv b NoA) ->
-      (v <- M1 ;; mutate_attr ct rec l a v true tc force skip) s = (r, s') ->
-      shape_from b h0 l s'.
+    Lemma after_write_ishape a (skip : bool) s2 r s' :
+      ishape b h0 l s2 ->
+      (if skip then ret tt else invalidate_attrs ct rec l a) s2 = (r, s') -> ishape b h0 l s'.
     Proof.
-      intros I0 Hlb Hl Hc Hnd Hsep Hrun. destruct (Hsep s I0) as [I1 F1]. unfold bind in Hrun.
-      destruct (M1 s) as [[value|e] s1] eqn:E; simpl in I1, F1.
-      2:{ exists s1. split; [exact I1|left]. inversion Hrun; auto. }
-      exists s1. split; [exact I1|].
-      assert (Hl1 := old_cell s1 l _ I1 Hlb Hl).
-      destruct (is_sentinel value) eqn:Es.
-      { left. unfold mutate_attr in Hrun. rewrite Es in Hrun. inversion Hrun; auto. }
-      destruct (mutate_attr_inplace_cases ct rec l a value tc force skip s1 c d k Hl1 Hc (no_dnc c k Hc) Hnd)
-        as [[e E2]|[r2 [s2 E2]]].
-      - left. rewrite E2 in Hrun. inversion Hrun; auto.
-      - right. rewrite E2 in Hrun. inversion Hrun; subst r s'.
-        destruct (mutate_attr_inplace_exact ct rec l a value tc force skip s1 c d k r2 s2 Hl1 Hc (no_dnc c k Hc)
-                    Es Hnd E2) as [_ ->].
-        exists c, d, (assoc_set a value d). split; [exact Hl1|]. split; [reflexivity|].
-        intros y Hy. destruct (vrefs_assoc_set a value d y Hy) as [->|Hd]; [|right; exact Hd].
-        destruct F1 as [H|[]]. left; exact H.
+      intros I2 Hrun. destruct skip; [inversion Hrun; subst; exact I2|].
+      eapply ishape_trans; [exact Hlb|exact I2|]. eapply Hinv; eauto. destruct I2 as (L & _). lia.
     Qed.
 
-    (* object.__delattr__, then the (empty) invalidation *)
-    Lemma del_tail_shape l a c d k (skip : bool) s r s' :
-      sinv b NoA NoW h0 s -> l < b -> nth_error h0 l = Some (OInst c d) -> lookup_cls ct c = Some k ->
-      no_dependants k a ->
-      (raw_delattr l a ;;; (if skip then ret tt else invalidate_attrs ct rec l a) ;;; ret VNone) s = (r, s') ->
-      shape_from b h0 l s'.
+    (* mutate_attr(l, a, value, inplace) from a state reached by allocation only *)
+    Lemma mutate_attr_ishape a c d k value tc force skip s1 r s' :
+      sinv b NoA NoW h0 s1 -> nth_error h0 l = Some (OInst c d) -> lookup_cls ct c = Some k ->
+      okv b NoA value ->
+      mutate_attr ct rec l a value true tc force skip s1 = (r, s') -> ishape b h0 l s'.
     Proof.
-      intros I0 Hlb Hl Hc Hnd Hrun. exists s. split; [exact I0|].
-      assert (Hl1 := old_cell s l _ I0 Hlb Hl).
+      intros I1 Hl Hc Hval Hrun. assert (Hl1 := old_cell b h0 s1 l _ I1 Hlb Hl).
+      unfold mutate_attr in Hrun. destruct (is_sentinel value) eqn:Es.
+      { inversion Hrun; subst. now apply sinv_ishape. }
+      rewrite (bind_ok _ _ _ _ _ (read_inst_at l s1 c d Hl1)) in Hrun. cbn [fst snd] in Hrun.
+      rewrite (bind_ok _ _ _ _ _ (cls_of_at ct s1 c k Hc)) in Hrun.
+      destruct (negb (force || initializing d) && true && c_frozen k).
+      { rewrite bind_err with (e := FrozenErr) (s1 := s1) in Hrun by reflexivity. inversion Hrun; subst. now apply sinv_ishape. }
+      rewrite bind_ret_l' in Hrun.
+      destruct (type_check_cases ct k a value tc s1) as [E|E]; cbv zeta in E.
+      2:{ rewrite (bind_err _ _ _ _ _ E) in Hrun. inversion Hrun; subst. now apply sinv_ishape. }
+      rewrite (bind_ok _ _ _ _ _ E) in Hrun. cbv zeta in Hrun. rewrite (no_dnc c k Hc) in Hrun.
+      cbn [orb negb andb] in Hrun. rewrite !bind_ret_l' in Hrun.
+      unfold bind at 1 in Hrun. rewrite (thawed_nothaw_eq ct l _ s1 c d k Hl1 Hc) in Hrun.
+      rewrite (bind_ok _ _ _ _ _ (raw_setattr_run l a value s1 c d Hl1)) in Hrun.
+      assert (I2 : ishape b h0 l (upd s1 l (OInst c (assoc_set a value d)))).
+      { apply (upd_ishape b h0 l s1 c d); auto. intros y Hy. destruct (vrefs_assoc_set a value d y Hy) as [->|Hd]; [|right; exact Hd].
+        destruct Hval as [H|[]]. left; exact H. }
+      destruct ((if skip then ret tt else invalidate_attrs ct rec l a) (upd s1 l (OInst c (assoc_set a value d))))
+        as [r3 s3] eqn:E3.
+      assert (I3 := after_write_ishape a skip _ r3 s3 I2 E3).
+      destruct r3; inversion Hrun; subst; exact I3.
+    Qed.
+
+    (* value <- M1 (allocation only) ;; mutate_attr(l, a, value, inplace) *)
+    Lemma prep_write_ishape a c d k (M1 : M val) tc force skip s r s' :
+      sinv b NoA NoW h0 s -> nth_error h0 l = Some (OInst c d) -> lookup_cls ct c = Some k ->
+      sep b NoA NoW h0 M1 (okv b NoA) ->
+      (v <- M1 ;; mutate_attr ct rec l a v true tc force skip) s = (r, s') -> ishape b h0 l s'.
+    Proof.
+      intros I0 Hl Hc Hsep Hrun. destruct (Hsep s I0) as [I1 F1]. unfold bind in Hrun.
+      destruct (M1 s) as [[value|e] s1] eqn:E; simpl in I1, F1.
+      2:{ inversion Hrun; subst. now apply sinv_ishape. }
+      eapply mutate_attr_ishape; eauto.
+    Qed.
+
+    (* object.__delattr__, then the invalidation *)
+    Lemma del_tail_ishape a c d (skip : bool) s r s' :
+      sinv b NoA NoW h0 s -> nth_error h0 l = Some (OInst c d) ->
+      (raw_delattr l a ;;; (if skip then ret tt else invalidate_attrs ct rec l a) ;;; ret VNone) s = (r, s') ->
+      ishape b h0 l s'.
+    Proof.
+      intros I0 Hl Hrun. assert (Hl1 := old_cell b h0 s l _ I0 Hlb Hl).
       unfold raw_delattr in Hrun. unfold bind at 1 2 in Hrun. rewrite (read_inst_at l s c d Hl1) in Hrun. cbn [fst snd] in Hrun.
-      destruct (assoc a d); [|left; inversion Hrun; auto].
+      destruct (assoc a d); [|inversion Hrun; subst; now apply sinv_ishape].
       unfold write in Hrun. assert (l <? length (heap s) = true) as Hlt by (apply Nat.ltb_lt; apply nth_error_Some; congruence).
       rewrite Hlt in Hrun.
       change (mkst (set_nth l (OInst c (assoc_del a d)) (heap s)) (ncalls s) (fail_at s))
         with (upd s l (OInst c (assoc_del a d))) in Hrun.
-      assert (Hl' : nth_error (heap (upd s l (OInst c (assoc_del a d)))) l = Some (OInst c (assoc_del a d))).
-      { unfold upd. simpl. apply nth_error_set_nth_same. apply nth_error_Some. congruence. }
-      right. exists c, d, (assoc_del a d). split; [exact Hl1|]. split.
-      - destruct skip.
-        + cbn in Hrun. inversion Hrun; auto.
-        + unfold bind in Hrun. rewrite (invalidate_noop ct rec l a _ c _ k Hl' Hc Hnd) in Hrun. inversion Hrun; auto.
-      - intros y Hy. right. eapply vrefs_assoc_del; eauto.
+      assert (I2 : ishape b h0 l (upd s l (OInst c (assoc_del a d)))).
+      { apply (upd_ishape b h0 l s c d); auto. intros y Hy. right. eapply vrefs_assoc_del; eauto. }
+      unfold bind in Hrun.
+      destruct ((if skip then ret tt else invalidate_attrs ct rec l a) (upd s l (OInst c (assoc_del a d))))
+        as [r3 s3] eqn:E3.
+      assert (I3 := after_write_ishape a skip _ r3 s3 I2 E3).
+      destruct r3; inversion Hrun; subst; exact I3.
     Qed.
   End Shapes.
 
-  Lemma exec_sep39 b h0 :
-    forall k, call_ok ct b NoA NoW k -> sep b NoA NoW h0 (exec ct 39 k) (post b NoA k).
-  Proof. exact (proj1 (exec_sep ct no_dnc wf_owner b NoA NoW h0 (NoA_closed' b h0) (NoA_table b) (NoA_dnc' b h0) 39)). Qed.
-  Lemma exec_sepX b h0 :
-    forall k, call_ok ct b NoA NoW k -> sep b NoA NoW h0 (exec ct XFUEL k) (post b NoA k).
-  Proof. exact (proj1 (exec_sep ct no_dnc wf_owner b NoA NoW h0 (NoA_closed' b h0) (NoA_table b) (NoA_dnc' b h0) XFUEL)). Qed.
+  Lemma exec_sepf f b h0 :
+    forall k, call_ok ct b NoA NoW k -> sep b NoA NoW h0 (exec ct f k) (post b NoA k).
+  Proof. exact (proj1 (exec_sep ct no_dnc wf_owner b NoA NoW h0 (NoA_closed' b h0) (NoA_table b) (NoA_dnc' b h0) f)). Qed.
 
-  Lemma shape_refl l s : inplace_shape l s s.
-  Proof. exists s. split; [apply sinv_start; reflexivity|left; reflexivity]. Qed.
-
-  (* obj.a = <scalar> *)
-  Lemma setattr_inplace_shape l a v s r s' :
-    val_nonref v -> (forall k, In k ct -> no_dependants k a) ->
-    exec ct XFUEL (KSetAttr l a v false false) s = (r, s') -> inplace_shape l s s'.
+  (* __delattr__ with the recursion at fuel f, given what invalidation at that fuel does *)
+  Lemma delattr_ishape f l
+    (Hinv : forall a s r s', l < length (heap s) ->
+       invalidate_attrs ct (exec ct f) l a s = (r, s') -> ishape (length (heap s)) (heap s) l s')
+    a skip s r s' :
+    delattr_ ct (exec ct f) l a false skip s = (r, s') -> ishape (length (heap s)) (heap s) l s'.
   Proof.
-    intros Hv Hnd Hrun. rewrite exec_set_unfold in Hrun. set (rec := exec ct 39) in *.
-    set (h0 := heap s). set (b := length h0).
-    assert (I0 : sinv b NoA NoW h0 s) by (apply sinv_start; reflexivity).
-    unfold setattr_ in Hrun.
-    destruct (nth_error (heap s) l) as [o|] eqn:Hl.
-    2:{ unfold read_inst, bind, read in Hrun. rewrite Hl in Hrun. inversion Hrun; subst. apply shape_refl. }
-    destruct o as [| | |c d];
-      try (unfold read_inst, bind, read in Hrun; rewrite Hl in Hrun; inversion Hrun; subst; apply shape_refl).
-    rewrite (bind_ok _ _ _ _ _ (read_inst_at l s c d Hl)) in Hrun. cbn [fst snd] in Hrun.
-    destruct (lookup_cls ct c) as [k|] eqn:Hc.
-    2:{ unfold cls_of, bind in Hrun. rewrite Hc in Hrun. inversion Hrun; subst. apply shape_refl. }
-    rewrite (bind_ok _ _ _ _ _ (cls_of_at ct s c k Hc)) in Hrun.
-    destruct (lookup_cls_In _ _ _ Hc) as [Hkin _].
-    eapply (prep_write_shape rec b h0 l a c d k); eauto.
-    - apply nth_error_Some. unfold h0. congruence.
-    - destruct (lookup_attr k a) as [sp|] eqn:Ea.
-      + apply (prepare_attr_value_sep ct b NoA NoW h0 (NoA_closed' b h0) rec (exec_sep39 b h0) sp l v None);
-          [eapply lookup_attr_ok; eauto using NoA_table|now apply nonref_okv|exact I].
-      + apply sep_ret. now apply nonref_okv.
-  Qed.
-
-  (* del obj.a *)
-  Lemma delattr_inplace_shape l a s r s' :
-    (forall k, In k ct -> no_dependants k a) ->
-    exec ct XFUEL (KDelAttr l a false false) s = (r, s') -> inplace_shape l s s'.
-  Proof.
-    intros Hnd Hrun. rewrite exec_del_unfold in Hrun. set (rec := exec ct 39) in *.
-    set (h0 := heap s). set (b := length h0).
+    intros Hrun. set (rec := exec ct f) in *. set (h0 := heap s). set (b := length h0).
     assert (I0 : sinv b NoA NoW h0 s) by (apply sinv_start; reflexivity).
     unfold delattr_ in Hrun.
     destruct (nth_error (heap s) l) as [o|] eqn:Hl.
-    2:{ unfold read_inst, bind, read in Hrun. rewrite Hl in Hrun. inversion Hrun; subst. apply shape_refl. }
+    2:{ unfold read_inst, bind, read in Hrun. rewrite Hl in Hrun. inversion Hrun; subst. apply ishape_refl. }
     destruct o as [| | |c d];
-      try (unfold read_inst, bind, read in Hrun; rewrite Hl in Hrun; inversion Hrun; subst; apply shape_refl).
+      try (unfold read_inst, bind, read in Hrun; rewrite Hl in Hrun; inversion Hrun; subst; apply ishape_refl).
     rewrite (bind_ok _ _ _ _ _ (read_inst_at l s c d Hl)) in Hrun. cbn [fst snd] in Hrun.
     destruct (lookup_cls ct c) as [k|] eqn:Hc.
-    2:{ unfold cls_of, bind in Hrun. rewrite Hc in Hrun. inversion Hrun; subst. apply shape_refl. }
+    2:{ unfold cls_of, bind in Hrun. rewrite Hc in Hrun. inversion Hrun; subst. apply ishape_refl. }
     rewrite (bind_ok _ _ _ _ _ (cls_of_at ct s c k Hc)) in Hrun.
-    destruct (lookup_cls_In _ _ _ Hc) as [Hkin _].
     assert (Hlb : l < b) by (apply nth_error_Some; unfold h0; congruence).
     destruct (negb (false || initializing d) && c_frozen k).
-    { rewrite bind_err with (e := FrozenErr) (s1 := s) in Hrun by reflexivity. inversion Hrun; subst. apply shape_refl. }
+    { rewrite bind_err with (e := FrozenErr) (s1 := s) in Hrun by reflexivity. inversion Hrun; subst. apply ishape_refl. }
     rewrite bind_ret_l' in Hrun. change (if false then None else lookup_attr k a) with (lookup_attr k a) in Hrun.
     destruct (lookup_attr k a) as [sp|] eqn:Ea.
-    2:{ eapply (del_tail_shape rec b h0 l a c d k false); eauto. }
+    2:{ eapply (del_tail_ishape rec l Hinv b h0 Hlb a c d skip); eauto. }
     assert (Hspok : spec_ok b NoA sp) by (eapply lookup_attr_ok; eauto using NoA_table).
     destruct (lookup_default_value_sep ct no_dnc b NoA NoW h0 (NoA_closed' b h0) (NoA_table b) (NoA_dnc' b h0)
-                rec (exec_sep39 b h0) sp k Hspok s I0) as [I1 F1].
+                rec (exec_sepf f b h0) sp k Hspok s I0) as [I1 F1].
     unfold bind at 1 in Hrun.
     destruct (lookup_default_value ct rec sp k s) as [[dv|e] s0] eqn:Ed; simpl in I1, F1.
-    2:{ inversion Hrun; subst. exists s'. split; [exact I1|left; reflexivity]. }
+    2:{ inversion Hrun; subst. now apply sinv_ishape. }
     destruct (is_missing dv).
-    - eapply (del_tail_shape rec b h0 l a c d k false); eauto.
-    - eapply (prep_write_shape rec b h0 l a c d k); eauto.
-      apply (prepare_attr_value_sep ct b NoA NoW h0 (NoA_closed' b h0) rec (exec_sep39 b h0) sp l dv None);
+    - eapply (del_tail_ishape rec l Hinv b h0 Hlb a c d skip); eauto.
+    - eapply (prep_write_ishape rec l Hinv b h0 Hlb a c d k); eauto.
+      apply (prepare_attr_value_sep ct b NoA NoW h0 (NoA_closed' b h0) rec (exec_sepf f b h0) sp l dv None);
         [exact Hspok|now apply freshv_okv|exact I].
   Qed.
 
-  (* obj.with_<a>(<scalar>, _inplace=True) and obj.reset_<a>(_inplace=True) *)
+  (* a loop of steps each of which has the footprint *)
+  Lemma iter_ishape {T} (F : T -> M unit) l xs :
+    (forall x s r s', l < length (heap s) -> F x s = (r, s') -> ishape (length (heap s)) (heap s) l s') ->
+    forall s r s', l < length (heap s) -> iterM F xs s = (r, s') -> ishape (length (heap s)) (heap s) l s'.
+  Proof.
+    intros HF. induction xs as [|x xs IH]; intros s r s' Hl Hrun; simpl in Hrun.
+    - inversion Hrun; subst. apply ishape_refl.
+    - unfold bind in Hrun. destruct (F x s) as [[u|e] s1] eqn:E.
+      + pose proof (HF x s _ _ Hl E) as I1. eapply ishape_trans; [exact Hl|exact I1|].
+        apply IH with (r := r); auto. destruct I1 as (L & _). lia.
+      + inversion Hrun; subst. eapply HF; eauto.
+  Qed.
+  Lemma catch_ishape (m : M unit) l s r s' h :
+    (forall r1 s1, m s = (r1, s1) -> ishape (length (heap s)) (heap s) l s1) ->
+    catch m h (ret tt) s = (r, s') -> ishape (length (heap s)) (heap s) l s'.
+  Proof.
+    intros Hm Hrun. unfold catch in Hrun. destruct (m s) as [[u|e] s1] eqn:E.
+    - inversion Hrun; subst. eapply Hm; eauto.
+    - destruct (h e); inversion Hrun; subst; eapply Hm; eauto.
+  Qed.
+  Lemma seq_unit_ishape (m : M val) l s r s' :
+    (forall r1 s1, m s = (r1, s1) -> ishape (length (heap s)) (heap s) l s1) ->
+    (m ;;; ret tt) s = (r, s') -> ishape (length (heap s)) (heap s) l s'.
+  Proof.
+    intros Hm Hrun. unfold bind in Hrun. destruct (m s) as [[u|e] s1] eqn:E; inversion Hrun; subst; eapply Hm; eauto.
+  Qed.
+
+  (* by induction on fuel: deletion with skip_invalidation, hence invalidation, at every fuel *)
+  Lemma del_inv_ishape f :
+    (forall l a s r s', exec ct f (KDelAttr l a false true) s = (r, s') -> ishape (length (heap s)) (heap s) l s') /\
+    (forall l a s r s', l < length (heap s) ->
+       invalidate_attrs ct (exec ct f) l a s = (r, s') -> ishape (length (heap s)) (heap s) l s').
+  Proof.
+    induction f as [|f [IH1 IH2]].
+    - assert (H1 : forall l a s r s', exec ct 0 (KDelAttr l a false true) s = (r, s') ->
+                     ishape (length (heap s)) (heap s) l s').
+      { intros l a s r s' H. change (exec ct 0 (KDelAttr l a false true)) with (@fail val Fuel) in H.
+        inversion H; subst. apply ishape_refl. }
+      split; [exact H1|]. intros l a s r s' Hl Hrun. unfold invalidate_attrs in Hrun.
+      unfold bind at 1 in Hrun. destruct (read_inst l s) as [[p|e] s1] eqn:Er.
+      2:{ pose proof (rdr_read_inst l s) as R. rewrite Er in R. simpl in R. inversion Hrun; subst. apply ishape_refl. }
+      pose proof (rdr_read_inst l s) as R. rewrite Er in R. simpl in R. subst s1.
+      unfold bind at 1 in Hrun. destruct (cls_of ct (fst p) s) as [[k|e] s1] eqn:Ek.
+      2:{ pose proof (rdr_cls_of ct (fst p) s) as R. rewrite Ek in R. simpl in R. inversion Hrun; subst. apply ishape_refl. }
+      pose proof (rdr_cls_of ct (fst p) s) as R. rewrite Ek in R. simpl in R. subst s1. cbv zeta in Hrun.
+      eapply iter_ishape; [|exact Hl|exact Hrun]. intros sp s2 r2 s2' Hl2 H2.
+      cbv beta in H2. match type of H2 with (if ?cnd then _ else _) _ = _ => destruct cnd end; [|inversion H2; subst; apply ishape_refl].
+      eapply catch_ishape; [|exact H2]. intros r1 s3 H3. eapply seq_unit_ishape; [|exact H3].
+      intros r4 s4 H4. eapply H1; eauto.
+    - assert (H1 : forall l a s r s', exec ct (S f) (KDelAttr l a false true) s = (r, s') ->
+                     ishape (length (heap s)) (heap s) l s').
+      { intros l a s r s' H. change (exec ct (S f) (KDelAttr l a false true)) with (delattr_ ct (exec ct f) l a false true) in H.
+        eapply (delattr_ishape f l (IH2 l)); eauto. }
+      split; [exact H1|]. intros l a s r s' Hl Hrun. unfold invalidate_attrs in Hrun.
+      unfold bind at 1 in Hrun. destruct (read_inst l s) as [[p|e] s1] eqn:Er.
+      2:{ pose proof (rdr_read_inst l s) as R. rewrite Er in R. simpl in R. inversion Hrun; subst. apply ishape_refl. }
+      pose proof (rdr_read_inst l s) as R. rewrite Er in R. simpl in R. subst s1.
+      unfold bind at 1 in Hrun. destruct (cls_of ct (fst p) s) as [[k|e] s1] eqn:Ek.
+      2:{ pose proof (rdr_cls_of ct (fst p) s) as R. rewrite Ek in R. simpl in R. inversion Hrun; subst. apply ishape_refl. }
+      pose proof (rdr_cls_of ct (fst p) s) as R. rewrite Ek in R. simpl in R. subst s1. cbv zeta in Hrun.
+      eapply iter_ishape; [|exact Hl|exact Hrun]. intros sp s2 r2 s2' Hl2 H2.
+      cbv beta in H2. match type of H2 with (if ?cnd then _ else _) _ = _ => destruct cnd end; [|inversion H2; subst; apply ishape_refl].
+      eapply catch_ishape; [|exact H2]. intros r1 s3 H3. eapply seq_unit_ishape; [|exact H3].
+      intros r4 s4 H4. eapply H1; eauto.
+  Qed.
+
+  Lemma inv_ishape f l a s r s' : l < length (heap s) ->
+    invalidate_attrs ct (exec ct f) l a s = (r, s') -> ishape (length (heap s)) (heap s) l s'.
+  Proof. apply (proj2 (del_inv_ishape f)). Qed.
+
+  Definition inplace_shape (l : loc) (s s' : state) : Prop := ishape (length (heap s)) (heap s) l s'.
+
+  (* del obj.a (any attribute, dependants included) *)
+  Lemma delattr_inplace_shape l a s r s' :
+    exec ct XFUEL (KDelAttr l a false false) s = (r, s') -> inplace_shape l s s'.
+  Proof.
+    intros Hrun. rewrite exec_del_unfold in Hrun. eapply (delattr_ishape 39 l (inv_ishape 39 l)); eauto.
+  Qed.
+
+  (* obj.a = <scalar> *)
+  Lemma setattr_inplace_shape l a v s r s' :
+    val_nonref v -> exec ct XFUEL (KSetAttr l a v false false) s = (r, s') -> inplace_shape l s s'.
+  Proof.
+    intros Hv Hrun. rewrite exec_set_unfold in Hrun. set (rec := exec ct 39) in *.
+    set (h0 := heap s). set (b := length h0). unfold inplace_shape. fold h0. fold b.
+    assert (I0 : sinv b NoA NoW h0 s) by (apply sinv_start; reflexivity).
+    unfold setattr_ in Hrun.
+    destruct (nth_error (heap s) l) as [o|] eqn:Hl.
+    2:{ unfold read_inst, bind, read in Hrun. rewrite Hl in Hrun. inversion Hrun; subst. apply ishape_refl. }
+    destruct o as [| | |c d];
+      try (unfold read_inst, bind, read in Hrun; rewrite Hl in Hrun; inversion Hrun; subst; apply ishape_refl).
+    rewrite (bind_ok _ _ _ _ _ (read_inst_at l s c d Hl)) in Hrun. cbn [fst snd] in Hrun.
+    destruct (lookup_cls ct c) as [k|] eqn:Hc.
+    2:{ unfold cls_of, bind in Hrun. rewrite Hc in Hrun. inversion Hrun; subst. apply ishape_refl. }
+    rewrite (bind_ok _ _ _ _ _ (cls_of_at ct s c k Hc)) in Hrun.
+    assert (Hlb : l < b) by (apply nth_error_Some; unfold h0; congruence).
+    eapply (prep_write_ishape rec l (inv_ishape 39 l) b h0 Hlb a c d k); eauto.
+    destruct (lookup_attr k a) as [sp|] eqn:Ea.
+    - apply (prepare_attr_value_sep ct b NoA NoW h0 (NoA_closed' b h0) rec (exec_sepf 39 b h0) sp l v None);
+        [eapply lookup_attr_ok; eauto using NoA_table|now apply nonref_okv|exact I].
+    - apply sep_ret. now apply nonref_okv.
+  Qed.
+
+  (* obj.with_<a>(<scalar>, _inplace=True), obj.reset_<a>(_inplace=True), obj.reset(_inplace=True) *)
   Definition inplace_helper_ok (hp : helper) : Prop :=
-    match hp with
-    | HWith a | HReset a => forall k, In k ct -> no_dependants k a
-    | _ => False
-    end.
+    match hp with HWith _ | HReset _ | HResetTop => True | _ => False end.
 
   Lemma helper_inplace_shape l hp h s r s' :
     h_inplace h = true -> inplace_helper_ok hp ->
@@ -273,48 +440,75 @@ Section Peers.
     run_helper ct l hp h s = (r, s') -> inplace_shape l s s'.
   Proof.
     intros Hi Hhp Hpos Hkw Hrun. unfold run_helper in Hrun.
-    destruct (negb (h_if h)); [inversion Hrun; subst; apply shape_refl|].
+    destruct (negb (h_if h)); [inversion Hrun; subst; apply ishape_refl|].
     destruct hp; simpl in Hhp; try contradiction.
     - (* with_<a> *)
-      set (h0 := heap s). set (b := length h0).
+      set (h0 := heap s). set (b := length h0). unfold inplace_shape. fold h0. fold b.
       assert (I0 : sinv b NoA NoW h0 s) by (apply sinv_start; reflexivity).
       unfold spec_for in Hrun.
       destruct (nth_error (heap s) l) as [o|] eqn:Hl.
-      2:{ unfold read_inst, bind, read in Hrun. rewrite Hl in Hrun. inversion Hrun; subst. apply shape_refl. }
+      2:{ unfold read_inst, bind, read in Hrun. rewrite Hl in Hrun. inversion Hrun; subst. apply ishape_refl. }
       destruct o as [| | |c d];
-        try (unfold read_inst, bind, read in Hrun; rewrite Hl in Hrun; inversion Hrun; subst; apply shape_refl).
+        try (unfold read_inst, bind, read in Hrun; rewrite Hl in Hrun; inversion Hrun; subst; apply ishape_refl).
       unfold bind at 1 2 in Hrun. rewrite (read_inst_at l s c d Hl) in Hrun. cbn [fst snd] in Hrun.
       destruct (lookup_cls ct c) as [k|] eqn:Hc.
-      2:{ unfold cls_of, bind in Hrun. rewrite Hc in Hrun. inversion Hrun; subst. apply shape_refl. }
+      2:{ unfold cls_of, bind in Hrun. rewrite Hc in Hrun. inversion Hrun; subst. apply ishape_refl. }
       unfold bind at 1 in Hrun. rewrite (cls_of_at ct s c k Hc) in Hrun.
-      destruct (lookup_attr k a) as [sp|] eqn:Ea; [|inversion Hrun; subst; apply shape_refl].
+      destruct (lookup_attr k a) as [sp|] eqn:Ea; [|inversion Hrun; subst; apply ishape_refl].
       cbn [ret snd] in Hrun. rewrite Hi, Hkw in Hrun. unfold with_attr in Hrun.
-      destruct (lookup_cls_In _ _ _ Hc) as [Hkin _]. destruct (lookup_attr_In _ _ _ Ea) as [_ Hname].
-      rewrite Hname in Hrun.
-      eapply (prep_write_shape (exec ct XFUEL) b h0 l a c d k); eauto.
-      + apply nth_error_Some. unfold h0. congruence.
-      + apply (prepare_attr_value_sep ct b NoA NoW h0 (NoA_closed' b h0) (exec ct XFUEL) (exec_sepX b h0) sp l (pos0 h) None);
-          [eapply lookup_attr_ok; eauto using NoA_table| |exact I].
-        apply nonref_okv. unfold pos0. destruct (nth_in_or_default 0 (h_pos h) VMissing) as [Hin|E0]; [|rewrite E0; exact I].
-        rewrite Forall_forall in Hpos. auto.
+      destruct (lookup_attr_In _ _ _ Ea) as [_ Hname]. rewrite Hname in Hrun.
+      assert (Hlb : l < b) by (apply nth_error_Some; unfold h0; congruence).
+      eapply (prep_write_ishape (exec ct XFUEL) l (inv_ishape XFUEL l) b h0 Hlb a c d k); eauto.
+      apply (prepare_attr_value_sep ct b NoA NoW h0 (NoA_closed' b h0) (exec ct XFUEL) (exec_sepf XFUEL b h0) sp l (pos0 h) None);
+        [eapply lookup_attr_ok; eauto using NoA_table| |exact I].
+      apply nonref_okv. unfold pos0. destruct (nth_in_or_default 0 (h_pos h) VMissing) as [Hin|E0]; [|rewrite E0; exact I].
+      rewrite Forall_forall in Hpos. auto.
     - (* reset_<a> *)
       rewrite Hi in Hrun. cbn [negb] in Hrun. rewrite bind_ret_l' in Hrun.
       unfold bind at 1 in Hrun.
       destruct (thawed ct l false (exec ct XFUEL (KDelAttr l a false false)) s) as [r1 s1] eqn:E.
       assert (Hs : s' = s1) by (destruct r1; inversion Hrun; auto). subst s1.
       unfold thawed in E. unfold bind at 1 in E. unfold read in E.
-      destruct (nth_error (heap s) l) as [o|] eqn:Hl; [|inversion E; subst; apply shape_refl].
+      destruct (nth_error (heap s) l) as [o|] eqn:Hl; [|inversion E; subst; apply ishape_refl].
       destruct o as [| | |c0 d0]; try (eapply delattr_inplace_shape; eauto; fail).
-      unfold bind at 1 in E. unfold cls_of in E. destruct (lookup_cls ct c0); [|inversion E; subst; apply shape_refl].
-      cbn [negb orb] in E. eapply delattr_inplace_shape; eauto.
+      unfold bind at 1 in E. unfold cls_of in E. destruct (lookup_cls ct c0); [|inversion E; subst; apply ishape_refl].
+      cbn [ret negb orb] in E. eapply delattr_inplace_shape; eauto.
+    - (* reset() *)
+      rewrite Hi in Hrun. cbn [negb] in Hrun. rewrite bind_ret_l' in Hrun.
+      unfold bind at 1 in Hrun. destruct (read_inst l s) as [[p|e] s1] eqn:Er.
+      2:{ pose proof (rdr_read_inst l s) as R. rewrite Er in R. simpl in R. inversion Hrun; subst. apply ishape_refl. }
+      pose proof (rdr_read_inst l s) as R. rewrite Er in R. simpl in R. subst s1.
+      assert (Hlen : l < length (heap s)).
+      { unfold read_inst, bind, read in Er. destruct (nth_error (heap s) l) eqn:Hn; [|discriminate].
+        apply nth_error_Some. congruence. }
+      unfold bind at 1 in Hrun. destruct (cls_of ct (fst p) s) as [[k|e] s1] eqn:Ek.
+      2:{ pose proof (rdr_cls_of ct (fst p) s) as R. rewrite Ek in R. simpl in R. inversion Hrun; subst. apply ishape_refl. }
+      pose proof (rdr_cls_of ct (fst p) s) as R. rewrite Ek in R. simpl in R. subst s1.
+      unfold bind at 1 in Hrun.
+      destruct (thawed ct l false
+                  (iterM (fun sp => catch (exec ct XFUEL (KDelAttr l (a_name sp) false false) ;;; ret tt)
+                                          (fun e => err_eqb e AttrErr) (ret tt)) (c_attrs k)) s) as [r1 s1] eqn:E.
+      assert (Hs : s' = s1) by (destruct r1; inversion Hrun; auto). subst s1.
+      assert (Hloop : forall r2 s2,
+                iterM (fun sp => catch (exec ct XFUEL (KDelAttr l (a_name sp) false false) ;;; ret tt)
+                                       (fun e => err_eqb e AttrErr) (ret tt)) (c_attrs k) s = (r2, s2) ->
+                inplace_shape l s s2).
+      { intros r2 s2 H2. eapply iter_ishape; [|exact Hlen|exact H2]. intros sp s3 r3 s3' _ H3.
+        eapply catch_ishape; [|exact H3]. intros r4 s4 H4. eapply seq_unit_ishape; [|exact H4].
+        intros r5 s5 H5. eapply delattr_inplace_shape; eauto. }
+      unfold thawed in E. unfold bind at 1 in E. unfold read in E.
+      destruct (nth_error (heap s) l) as [o|] eqn:Hl; [|inversion E; subst; apply ishape_refl].
+      destruct o as [| | |c0 d0]; try (eapply Hloop; eauto; fail).
+      unfold bind at 1 in E. unfold cls_of in E. destruct (lookup_cls ct c0); [|inversion E; subst; apply ishape_refl].
+      cbn [ret negb orb] in E. eapply Hloop; eauto.
   Qed.
 
   (* ---------- the alphabet ---------- *)
   Definition peer_op_ok (T : list nat) (o : op) : Prop :=
     match o with
     | OpConstruct _ pos kw => kw_nu kw /\ match pos with Some v => val_nonref v /\ nu v | None => True end
-    | OpSetAttr x a v => In x T /\ val_nonref v /\ (forall k, In k ct -> no_dependants k a)
-    | OpDelAttr x a => In x T /\ (forall k, In k ct -> no_dependants k a)
+    | OpSetAttr x _ v => In x T /\ val_nonref v
+    | OpDelAttr x _ => In x T
     | OpHelper x hp h =>
         if h_inplace h
         then In x T /\ inplace_helper_ok hp /\ Forall val_nonref (h_pos h) /\ h_kw h = None
@@ -358,13 +552,13 @@ Section Peers.
       (s' = s \/ exists lx, nth x roots VNone = VRef lx /\ inplace_shape lx s s').
   Proof.
     destruct o; simpl; intros Hok Hs Hrun; try discriminate.
-    - destruct Hok as (Hx & Hv & Hnd). exists x. split; [exact Hx|]. unfold bind in Hrun.
+    - destruct Hok as (Hx & Hv). exists x. split; [exact Hx|]. unfold bind in Hrun.
       destruct (nth x roots VNone) as [| | | |b0|z0|z0|z0|lx] eqn:Ex; try (simpl in Hrun; inversion Hrun; auto; fail).
       simpl loc_of in Hrun. cbn [ret] in Hrun.
       destruct (exec ct XFUEL (KSetAttr lx a v false false) s) as [r0 s2] eqn:E.
       assert (Hs2 : s' = s2) by (destruct r0; inversion Hrun; auto). subst s2.
       right. exists lx. split; [reflexivity|]. eapply setattr_inplace_shape; eauto.
-    - destruct Hok as (Hx & Hnd). exists x. split; [exact Hx|]. unfold bind in Hrun.
+    - exists x. split; [exact Hok|]. unfold bind in Hrun.
       destruct (nth x roots VNone) as [| | | |b0|z0|z0|z0|lx] eqn:Ex; try (simpl in Hrun; inversion Hrun; auto; fail).
       simpl loc_of in Hrun. cbn [ret] in Hrun.
       destruct (exec ct XFUEL (KDelAttr lx a false false) s) as [r0 s2] eqn:E.
@@ -416,31 +610,10 @@ Section Peers.
         split; [intros y l Hy; rewrite nth_old by auto; rewrite Hh; apply P2; auto|].
         split; [intros y1 y2 l1 l2 H1 H2; rewrite !nth_old by auto; apply P3; auto|].
         intros y1 y2 l1 l2 z H1 H2; rewrite !nth_old by auto; rewrite Hh; apply P4; auto. }
-      destruct Hcase as [->|(lx & Ex & (s1 & I1 & Hshape))]; [apply Hsame; reflexivity|].
-      change (heap s0) with h0 in I1, Hshape. fold b in I1, Hshape.
+      destruct Hcase as [->|(lx & Ex & Hshape)]; [apply Hsame; reflexivity|].
+      unfold inplace_shape in Hshape. change (heap s0) with h0 in Hshape. fold b in Hshape.
       assert (Hlx : lx < b) by (apply (P2 x lx Hx Ex)).
-      destruct I1 as (L1 & Old1 & Cl1).
-      assert (Hlen : b <= length (heap s')).
-      { destruct Hshape as [->|(c & d & d' & _ & -> & _)]; [exact L1|]. unfold upd. simpl. rewrite set_nth_length. exact L1. }
-      assert (Same : forall l, l < b -> l <> lx -> nth_error (heap s') l = nth_error h0 l).
-      { intros l Hl Hne. destruct (Old1 l Hl) as [[]|E1].
-        destruct Hshape as [->|(c & d & d' & _ & -> & _)]; [exact E1|].
-        unfold upd. simpl. rewrite set_nth_other by auto. exact E1. }
-      assert (Closed : forall l o0 y, b <= l -> nth_error (heap s') l = Some o0 -> In y (refs_of o0) -> b <= y).
-      { intros l o0 y Hl Hn Hin.
-        assert (Hn1 : nth_error (heap s1) l = Some o0).
-        { destruct Hshape as [->|(c & d & d' & _ & -> & _)]; [exact Hn|].
-          unfold upd in Hn. simpl in Hn. rewrite set_nth_other in Hn by lia. exact Hn. }
-        destruct (obj_ok_refs b NoA o0 y (Cl1 l o0 Hl Hn1) Hin) as [H|[]]. exact H. }
-      assert (Upd : forall o' y, nth_error (heap s') lx = Some o' -> In y (refs_of o') ->
-                      b <= y \/ exists o0, nth_error h0 lx = Some o0 /\ In y (refs_of o0)).
-      { intros o' y Hn Hin. destruct (Old1 lx Hlx) as [[]|E1].
-        destruct Hshape as [->|(c & d & d' & Hl1 & -> & Hrefs)].
-        - right. exists o'. rewrite <- E1. auto.
-        - unfold upd in Hn. simpl in Hn.
-          rewrite nth_error_set_nth_same in Hn by (apply nth_error_Some; congruence). inversion Hn; subst o'.
-          simpl in Hin. destruct (Hrefs y Hin) as [H|Hd]; [left; exact H|].
-          right. exists (OInst c d). rewrite <- E1. split; [exact Hl1|exact Hd]. }
+      destruct Hshape as (Hlen & Same & Closed & Upd & _).
       split; [intros y Hy; rewrite app_length; specialize (P1 y Hy); lia|].
       split; [intros y l Hy; rewrite nth_old by auto; intro Hl; specialize (P2 y l Hy Hl); fold h0 in P2; fold b in P2; lia|].
       split; [intros y1 y2 l1 l2 H1 H2; rewrite !nth_old by auto; apply P3; auto|].
@@ -580,7 +753,7 @@ Theorem ctor_peers_disjoint ct :
   (forall c k, lookup_cls ct c = Some k -> c_dnc k = false) -> scalar_table ct -> tgb ct = true ->
   (forall k sp, In k ct -> In sp (c_attrs k) -> a_dnc sp = false) ->
   forall ops s roots,
-    ops_ok ct (length roots) [] ops -> run_wf ct s roots ops ->
+    ops_ok (length roots) [] ops -> run_wf ct s roots ops ->
     forall i j ci pi kwi fi cj pj kwj fj li lj,
       nth_error ops i = Some (OpConstruct ci pi kwi, fi) ->
       nth_error ops j = Some (OpConstruct cj pj kwj, fj) -> i <> j ->
@@ -615,7 +788,7 @@ Definition exp_ops : list (op * option nat) :=
 
 Example peers_disjoint_nonvacuous :
   tgb exp_ct = true /\
-  ops_ok exp_ct 1 [] exp_ops /\
+  ops_ok 1 [] exp_ops /\
   run_wfb exp_ct (mkst [OList [VInt 1]] 0 None) [VRef 0] exp_ops = true /\
   (let '(s', roots') := run_ops exp_ct (mkst [OList [VInt 1]] 0 None) [VRef 0] exp_ops in
    roots' = [VRef 0; VRef 1; VRef 3; VNone; VRef 5; VRef 8] /\
@@ -626,8 +799,7 @@ Example peers_disjoint_nonvacuous :
               OList [VInt 1; VInt 5]; OInst 2 [(50, VRef 7); (51, VInt 3)]; OList [VInt 1]]).
 Proof.
   split; [reflexivity|]. split.
-  - simpl. unfold no_dependants. repeat split; auto; try (constructor; fail); try (repeat constructor; fail).
-    intros k [<-|[]]. reflexivity.
+  - simpl. repeat split; auto; repeat constructor.
   - split; [vm_compute; reflexivity|]. vm_compute. split; reflexivity.
 Qed.
 
@@ -639,7 +811,7 @@ Definition exp_ops2 : list (op * option nat) :=
    (OpHelper 2 (HReset 50) (mkh [] true true VMissing false None None [] None), None)].
 
 Example peers_disjoint_inplace_nonvacuous :
-  ops_ok exp_ct 1 [] exp_ops2 /\
+  ops_ok 1 [] exp_ops2 /\
   run_wfb exp_ct (mkst [OList [VInt 1]] 0 None) [VRef 0] exp_ops2 = true /\
   (let '(s', roots') := run_ops exp_ct (mkst [OList [VInt 1]] 0 None) [VRef 0] exp_ops2 in
    roots' = [VRef 0; VRef 1; VRef 3; VNone; VRef 5; VRef 8; VNone; VRef 1; VRef 3] /\
@@ -648,7 +820,34 @@ Example peers_disjoint_inplace_nonvacuous :
    nth_error (heap s') 0 = Some (OList [VInt 1])).
 Proof.
   split.
-  - simpl. unfold no_dependants. repeat split; auto; try (constructor; fail); try (repeat constructor; fail);
-      try (intros k [<-|[]]; reflexivity).
+  - simpl. repeat split; auto; repeat constructor.
+  - split; [vm_compute; reflexivity|]. vm_compute. repeat split; reflexivity.
+Qed.
+
+(* an attribute WITH a dependant: ys is invalidated by n (and has a mutable default, cell 0);
+   p = C(); q = C(); p.n = 7 (resets p.ys to a fresh copy); p.reset(_inplace=True) *)
+Definition exq_cls : cls :=
+  mkcls 2 [mkattr 51 TInt (VInt 3) None 2 true false None None [];
+           mkattr 52 (TList TInt) (VRef 0) None 2 true false None None [51]]
+        false false None [2] 2 [] None None.
+Definition exq_ct : ctable := [exq_cls].
+Definition exq_ops : list (op * option nat) :=
+  [(OpConstruct 2 None [], None);
+   (OpConstruct 2 None [], None);
+   (OpSetAttr 1 51 (VInt 7), None);
+   (OpHelper 1 HResetTop (mkh [] true true VMissing false None None [] None), None)].
+
+Example peers_disjoint_dependants_nonvacuous :
+  tgb exq_ct = true /\ dependants exq_cls 51 = [52] /\
+  ops_ok 1 [] exq_ops /\
+  run_wfb exq_ct (mkst [OList [VInt 1]] 0 None) [VRef 0] exq_ops = true /\
+  (let '(s', roots') := run_ops exq_ct (mkst [OList [VInt 1]] 0 None) [VRef 0] exq_ops in
+   roots' = [VRef 0; VRef 1; VRef 3; VNone; VRef 1] /\
+   nth_error (heap s') 0 = Some (OList [VInt 1]) /\
+   nth_error (heap s') 1 = Some (OInst 2 [(51, VInt 3); (52, VRef 7)]) /\
+   nth_error (heap s') 3 = Some (OInst 2 [(51, VInt 3); (52, VRef 4)])).
+Proof.
+  split; [reflexivity|]. split; [reflexivity|]. split.
+  - simpl. repeat split; auto; repeat constructor.
   - split; [vm_compute; reflexivity|]. vm_compute. repeat split; reflexivity.
 Qed.
